@@ -8,14 +8,6 @@ namespace LndModel.C03
 
 /-! ## counting signatures / revocations in a queue -/
 
-def SMsg.isSig : SMsg → Bool
-  | .sig .. => true
-  | _ => false
-
-def SMsg.isRev : SMsg → Bool
-  | .rev _ => true
-  | _ => false
-
 def nSig (q : List SMsg) : Nat := q.countP SMsg.isSig
 def nRev (q : List SMsg) : Nat := q.countP SMsg.isRev
 
